@@ -17,7 +17,7 @@ ASSUMPTIONS = [
     "vector_grow_one: item size 40 bytes (sizeof(alignment_entry_t)), block of 8 entries or empty; ckd_realloc is the libc stub",
 ]
 HAND_LEMMAS = ["children partition their parent's frames: with contiguous child intervals (established by state_align_search_finish, not under contract) the sum of child durations is the parent's duration, which alignment_propagate is checked to compute"]
-NOT_COVERED = ["alignment_populate (phones of a word = dictionary pronunciation)", "state_align_search_finish backtrace (contiguity, positive durations)", "agreement of words / boundaries with the first-pass segmentation (decoder_alignment; the stale-aligner reuse of seeded change C04_B is detected by the C08 reset contract instead)", "word score = acoustic part of the first-pass score (cross-pass numeric relation, not contractible)"]
+NOT_COVERED = ["alignment_populate (phones of a word = dictionary pronunciation)", "state_align_search_finish backtrace (contiguity, positive durations)", "agreement of words / boundaries with the first-pass segmentation (decoder_alignment; the stale-aligner reuse of seeded change C04_B is detected by the C08 reset contract instead)", "word score = acoustic part of the first-pass score (cross-pass numeric relation, not contractible)", "the items above are NOT under contract; on real decodes they (except the word score = first-pass acoustic score relation, which does not hold on the unchanged tree and is not checked) are exercised only by the bounded native run e2e_invariants -- never counted as proved"]
 CLAIM = dict(
     text="vector_grow_one is proved (loop-free): the entry count never exceeds the capacity, the new slot lies inside the (re)allocated block, and the 16-bit limit is reported by NULL with nothing changed. alignment_propagate is checked by CBMC on the real function over every hierarchy of <= 4 states / 3 phones / 2 words with symbolic values, including stale parent values from an earlier pass and single-child parents: a parent's duration and score are the sums over its children and it starts where its first child starts (bounded). The rest of the hierarchy construction is NOT covered.",
     note="vector capacity proof + bounded propagate check; populate, backtrace and agreement with the first pass not covered; trusted: CBMC 6.11; end-to-end invariants on ~12 real decodes by a bounded native run (native/e2e_invariants.c), never counted as proved",
